@@ -123,6 +123,27 @@ func mkTFs(toks []TokSpec) index.TokenFrequencies {
 
 func materializeDoc(d *DocSpec) index.Document {
 	base := hDoc{id: string(d.ID)}
+	var composed []*hComp
+	defer func() {
+		// bleve's compose step: every ordinary field (but `_id`) is merged into the composite field;
+		// the composite's locations ARE the fields' location objects
+		for _, hc := range composed {
+			tfs := index.TokenFrequencies{}
+			for _, f := range base.fields {
+				var hf *hField
+				switch x := f.(type) {
+				case *hField:
+					hf = x
+				case *hShapeField:
+					hf = x.hField
+				}
+				if hf != nil && hf.name != "_id" && hf.tfs != nil {
+					tfs.MergeAll(hf.name, hf.tfs)
+				}
+			}
+			hc.tfs = tfs
+		}
+	}()
 	for i := range d.Fields {
 		f := &d.Fields[i]
 		switch f.Kind {
@@ -134,7 +155,11 @@ func materializeDoc(d *DocSpec) index.Document {
 			if f.DV {
 				opts |= index.DocValues
 			}
-			base.comps = append(base.comps, &hComp{hField{name: f.Name, typ: 'c', opts: opts, alen: f.Len, tfs: mkTFs(f.Toks)}})
+			hc := &hComp{hField{name: f.Name, typ: 'c', opts: opts, alen: f.Len, tfs: mkTFs(f.Toks)}}
+			if f.Compose {
+				composed = append(composed, hc)
+			}
+			base.comps = append(base.comps, hc)
 		case "fld":
 			opts := index.IndexField
 			if f.Stored {
